@@ -119,6 +119,7 @@ func (x *Exec) model(st *State, fr *Frame, in *ssa.Call, callee *ssa.Function, a
 			return ret("(ite (>= " + a(0) + " 0.0) " + a(0) + " (- " + a(0) + "))")
 		case "math.Sqrt":
 			x.usedFloatArith = true
+		x.faCount++
 			if x.fp() {
 				return ret("(fp.sqrt RNE " + a(0) + ")")
 			}
@@ -127,6 +128,7 @@ func (x *Exec) model(st *State, fr *Frame, in *ssa.Call, callee *ssa.Function, a
 			return ret(r)
 		case "math.Floor", "math.Ceil", "math.Trunc", "math.Round", "math.RoundToEven":
 			x.usedFloatArith = true
+		x.faCount++
 			if x.fp() {
 				rm := map[string]string{"math.Floor": "RTN", "math.Ceil": "RTP", "math.Trunc": "RTZ", "math.Round": "RNA", "math.RoundToEven": "RNE"}[name]
 				return ret("(fp.roundToIntegral " + rm + " " + a(0) + ")")
@@ -200,12 +202,15 @@ func (x *Exec) model(st *State, fr *Frame, in *ssa.Call, callee *ssa.Function, a
 			return ret(r)
 		case "math.Sin", "math.Cos", "math.Tan", "math.Asin", "math.Acos", "math.Atan", "math.Exp", "math.Log", "math.Sinh", "math.Cosh", "math.Tanh", "math.Log10", "math.Log2", "math.Cbrt":
 			x.usedFloatArith = true
+		x.faCount++
 			return ret(x.ufFloat("f"+strings.ToLower(strings.TrimPrefix(name, "math.")), a(0)))
 		case "math.Atan2", "math.Pow", "math.Hypot", "math.Mod":
 			x.usedFloatArith = true
+		x.faCount++
 			return ret(x.ufFloat("f"+strings.ToLower(strings.TrimPrefix(name, "math.")), a(0), a(1)))
 		case "math.Sincos":
 			x.usedFloatArith = true
+		x.faCount++
 			return Val{Tup: []Val{{S: x.ufFloat("fsin", a(0)), T: ft}, {S: x.ufFloat("fcos", a(0)), T: ft}}, T: rt}, true
 		}
 		return Val{}, false
